@@ -23,7 +23,7 @@ pub fn tpl(name: &str) -> String {
         "D" => "{wide_bar} {pos}/{len}",
         "CP" => "{pos} {len} {percent}",
         "P" => "{pos}",
-        "MP" => "{msg:7}{pos}",
+        "MP" => "{pos}{msg:7}",
         other => other, // raw template text
     }.to_string()
 }
